@@ -241,8 +241,12 @@ def oracle_cases(ctx, deep):
     return cases
 
 
+def match_key(c):
+    return {'kind': c['kind'], 'decoder': c['decoder'], 'code': c['code']}
+
+
 def shrink(case):
-    for e in case['errors'][: (3 if case.get('decoder') in D.TIMED_OUT else None)]:
+    for e in case['errors'][: (3 if D._k(match_key, case) in D.TIMED_OUT else None)]:
         c1 = dict(case, errors=[e])
         if check_case(c1) is not None:
             return c1
@@ -252,8 +256,7 @@ def shrink(case):
 def oracle(ctx, deep=False, broken=None):
     cases = oracle_cases(ctx, deep)
     D.TIMED_OUT.clear()
-    fails = first_failures(cases, D.bounded(check_case),
-                           key=lambda c: {'kind': c['kind'], 'decoder': c['decoder'], 'code': c['code']})
+    fails = first_failures(cases, D.bounded(check_case, match_key), key=match_key)
     for f in fails:
         f['input'] = shrink(f['input'])
         f['observed'] = check_case(f['input']) or f['observed']
